@@ -408,9 +408,21 @@ META = {
             "substitutions against the computed factor) and in ONE statement (Higham Thm 10.4, needs (3n+1)*eps < 1): the computed "
             "x^ solves (A + dA) x^ = b + db exactly, A read as the symmetric matrix of its lower triangle, |dA|_rk <= gamma_{3n+1} "
             "(|L^||L^|^T)_rk + (3(n+1) + 2|l_mm| + eta)(1 + gamma_{n+1}) eta, |db| = O(n) eta explicit and 0 when eta = 0. "
-            "Non-vacuity: 2x2 runs with the inexact rounding v -> v(1 + 1/8) whose residuals are non-zero and below the bounds. "
-            "NOT proved in the rounding model: the combined statement (A + dA) x^ = b for PLU and LDL^T factorisation + solve "
-            "(Higham Thm 9.4), the inverses, the determinants; these stay measured by the exact-rational oracle. Tie: the same "
+            "The same ONE-statement form for PLU and LDL^T (coq/C08/RoundEndToEnd.v, RoundEndToEnd64.v, 6 theorems "
+            "C08_plu_solve_end_to_end[_rows_of_PA|_binary64], C08_ldl_solve_end_to_end[_binary64], "
+            "C08_ldl_upper_solve_perturbed_system; Higham Thm 9.4 and its LDL^T analogue; hypotheses: 3n*eps < 1, tiny > 0, buffer "
+            "lengths, nothing else - the pivots are non-zero because the rounded factorisation returned 0): a_real_plu followed by "
+            "a_real_plu_solve on the computed factors and the permutation p of the rounded run: (A + dA) x^ = b + db exactly, row "
+            "by row of A, |dA[p[r]][c]| <= gamma_{3n} (|L^||U^|)_rc + (3n + |u_cc|)(1 + gamma_n) eta for all r, c < n with p a "
+            "permutation of 0..n-1, i.e. |dA| <= gamma_{3n} P^T |L^||U^| + O(n) eta; a_real_ldl followed by a_real_ldl_solve: A read "
+            "as the symmetric matrix of its lower triangle, |dA|_rk <= gamma_{3n} (|L^||D^||L^|^T)_rk + (3n + sum_{i<=min(r,k)} "
+            "|d_i|)(1 + gamma_n) eta (a_real_ldl_upper, which divides first, is put in perturbed form (D L^T + dU) x^ = y + db for "
+            "this); in both |db| is an explicit O(n) eta bound (weights |l_rj|, |u_jj| resp. |l_rc||d_c|) and db = 0 is proved for "
+            "eta = 0; dA and db are explicit terms (no choice axiom). "
+            "Non-vacuity: 2x2 runs with the inexact rounding v -> v(1 + 1/8) whose residuals are non-zero and below the bounds; the "
+            "end-to-end theorems applied to those runs (3n*eps = 3/4), whose computed solutions are evaluated and are not the exact ones. "
+            "NOT proved in the rounding model: the inverses, the determinants; "
+            "these stay measured by the exact-rational oracle. Tie: the same "
             "polymorphic term at PrimFloat (vm_compute) vs the C bit for bit on all 34 routines incl. lndet (libm log logged "
             "via --wrap and supplied to the model). Differential test, not a theorem: the glue run (tools/vglue.py, "
             "harness/glue/cfg_C08.c) builds the three families for a_real = float, double and long double with ASan/UBSan and runs "
